@@ -255,7 +255,7 @@ func init() {
 				return
 			}
 			r.Check(instrDominates(store, send), where, "resp.Store dominates adp.Send", send.Pos(), "the reply channel is registered before the request is sent", "the request is sent before its reply channel is registered: a fast reply finds no waiter and is dropped (the caller times out)")
-			key := pathOf(store.Call.Args[1])
+			key := pathOf(resolveLocal(store.Call.Args[1]))
 			r.Check(strings.HasSuffix(key, ".IRequestId"), where, "table key is the request id", store.Pos(), "key = %s", "the pending table is keyed by %s, not by the request id", key)
 			ch := strip(store.Call.Args[2], false)
 			mk, isMk := ch.(*ssa.MakeChan)
@@ -289,7 +289,7 @@ func init() {
 				if c == nil || funcID(calleeObj(c)) != "sync.(Map).Delete" || !isFieldOf(c.Args[0], adapterT, "resp") {
 					return
 				}
-				delKey = pathOf(c.Args[1])
+				delKey = pathOf(resolveLocal(c.Args[1]))
 				if delKey == key {
 					delOK = true
 				}
@@ -432,4 +432,56 @@ func enqueuesRequest(fn *ssa.Function, d int) bool {
 		}
 	})
 	return hit
+}
+
+// resolveLocal looks through a local variable that is assigned exactly once (also when it is captured
+// by a closure that only reads it): `k := msg.Req.IRequestId; m.Store(k, ch)` names the same value as
+// `m.Store(msg.Req.IRequestId, ch)`. Conversions to interface are looked through as well.
+func resolveLocal(v ssa.Value) ssa.Value {
+	for i := 0; i < 8; i++ {
+		switch x := v.(type) {
+		case *ssa.MakeInterface:
+			v = x.X
+			continue
+		case *ssa.ChangeInterface:
+			v = x.X
+			continue
+		case *ssa.UnOp:
+			if x.Op != token.MUL {
+				return v
+			}
+			switch a := x.X.(type) {
+			case *ssa.Alloc:
+				if sv, ok := singleStore(a); ok && sv != nil {
+					v = sv
+					continue
+				}
+			case *ssa.FreeVar:
+				fn := a.Parent()
+				if fn.Parent() == nil {
+					return v
+				}
+				idx := -1
+				for k, fv := range fn.FreeVars {
+					if fv == a {
+						idx = k
+					}
+				}
+				var bound ssa.Value
+				eachInstr(fn.Parent(), func(in ssa.Instruction) {
+					if mc, ok := in.(*ssa.MakeClosure); ok && mc.Fn == fn && idx >= 0 && idx < len(mc.Bindings) {
+						bound = mc.Bindings[idx]
+					}
+				})
+				if al, ok := bound.(*ssa.Alloc); ok {
+					if sv, ok := singleStore(al); ok && sv != nil {
+						v = sv
+						continue
+					}
+				}
+			}
+		}
+		return v
+	}
+	return v
 }
